@@ -71,7 +71,14 @@ def projects(tier):
                         f2 = dict(files)
                         f2[fp] = fn(files[fp])
                         out.append((label + "!" + fk + "@" + fp.split("/")[-1], f2, False, [fp]))
-    return out
+    # a module file NEXT TO a directory of the same name (sub.mamba beside sub/): the order in which paths are listed, sorted and
+    # compared (byte-wise on the string vs component-wise) differs exactly there; the file's content is d.mamba's
+    clash = []
+    for label, files, ok, faulty in out:
+        if "d.mamba" in files and any(p.startswith("sub/") for p in files) and (not quick or not faulty):
+            f2 = {("sub.mamba" if p == "d.mamba" else p): t for p, t in files.items()}
+            clash.append((label + ":clash", f2, ok, ["sub.mamba" if p == "d.mamba" else p for p in faulty]))
+    return out + clash
 
 
 def tree_key(tree):
